@@ -293,10 +293,45 @@ def _task_seed(seed, idx):
     return (seed * 1000003 + idx * 7919 + 17) % (2 ** 31)
 
 
+_COV = {'lines': set(), 'on': False}
+
+
+def _cov_start():
+    """Opt-in (VERIF_COV=<dir>) line coverage of the library under test, used to find input classes no generator reaches
+    (tools/coverage_gaps.py).  Never active in a registered command."""
+    d = os.environ.get('VERIF_COV')
+    if not d or _COV['on'] or not hasattr(sys, 'monitoring'):
+        return
+    mon, tid = sys.monitoring, sys.monitoring.COVERAGE_ID
+    root = os.path.join(os.path.abspath(os.environ.get('FXP_REPO', '/repo')), 'fxpmath')
+    lines = _COV['lines']
+
+    def on_line(code, line):
+        if code.co_filename.startswith(root):
+            lines.add((os.path.basename(code.co_filename), line))
+        return mon.DISABLE
+    try:
+        mon.use_tool_id(tid, 'fxverif-cov')
+    except ValueError:
+        pass
+    mon.register_callback(tid, mon.events.LINE, on_line)
+    mon.set_events(tid, mon.events.LINE)
+    _COV['on'] = True
+
+
+def _cov_dump(tag):
+    d = os.environ.get('VERIF_COV')
+    if d and _COV['on']:
+        os.makedirs(d, exist_ok=True)
+        with open(os.path.join(d, '%s.%d.json' % (tag.replace('/', '_'), os.getpid())), 'w') as f:
+            json.dump(sorted(_COV['lines']), f)
+
+
 def _run_task(arg):
     prop, tier, seed, idx, name, fn_name, kwargs, target_sig, budget = arg
     t0 = time.time()
     try:
+        _cov_start()
         import_fxpmath()
         mod = _load(prop)
         ctx = Ctx(prop, tier, seed, task=name)
@@ -315,6 +350,7 @@ def _run_task(arg):
         out = ctx.export()
         out['last_target_case'] = ctx.last_target_case
         out['wall'] = time.time() - t0
+        _cov_dump('%s.%s' % (prop, name))
         return out
     except BaseException as e:                          # noqa: BLE001
         return {'harness_error': '%s in task %s: %s\n%s' % (type(e).__name__, name, e, traceback.format_exc())}
@@ -431,6 +467,7 @@ def main(argv=None):
     # corpus (seconds-long tier): every saved case is replayed first
     corpus_files = sorted(glob.glob(os.path.join(ROOT, 'corpus', prop, '*.json')))
     corpus_n = 0
+    _cov_start()
     for cf in corpus_files:
         try:
             with open(cf) as f:
@@ -444,6 +481,7 @@ def main(argv=None):
         except BaseException as e:                      # noqa: BLE001
             harness_errors.append('corpus %s: %s' % (cf, traceback.format_exc()))
 
+    _cov_dump('%s.corpus' % prop)
     ctxmp = mp.get_context('fork')
     with ctxmp.Pool(min(N_PROCS, max(1, len(jobs)))) as pool:
         for job, out in zip(jobs, pool.imap(_run_task, jobs, chunksize=1)):
